@@ -171,6 +171,25 @@ def prog_raw_recv(llc, log):
     s.recv()
 
 
+def prog_raw_wks(llc, log):
+    # a raw access point on a well-known address, then somebody tries to
+    # bind the service name that belongs to that address (refused: the
+    # address is in use); the raw socket's reader is woken at link end
+    s = nfc.llcp.Socket(llc, nfc.llcp.llc.RAW_ACCESS_POINT)
+    try:
+        s.bind(4)
+    except nfc.llcp.Error as e:
+        log.append(("raw-bind", e.errno))
+        return
+    t = nfc.llcp.Socket(llc, nfc.llcp.LOGICAL_DATA_LINK)
+    try:
+        t.bind("urn:nfc:sn:snep")
+        log.append(("name-bound", t.getsockname()))
+    except nfc.llcp.Error as e:
+        log.append(("name-bind", e.errno))
+    s.recv()
+
+
 PROGRAMS = {
     "accept-recv": prog_accept_recv, "accept-silent": prog_accept_silent,
     "connect-recv": prog_connect_recv, "connect-flood": prog_connect_flood,
@@ -180,13 +199,14 @@ PROGRAMS = {
     "sendto": prog_sendto, "poll-recv": prog_poll_recv,
     "snep-server": prog_snep_server, "handover-server": prog_handover_server,
     "snep-put": prog_snep_put, "raw-recv": prog_raw_recv,
+    "raw-wks": prog_raw_wks,
 }
 SERVER_SIDE = ["accept-recv", "accept-silent", "recvfrom", "poll-recv",
                "snep-server", "handover-server", "resolve-unknown",
-               "raw-recv"]
+               "raw-recv", "raw-wks"]
 CLIENT_SIDE = ["connect-recv", "connect-flood", "connect-nobody",
                "connect-unbound", "resolve-unknown", "sendto", "snep-put",
-               "recvfrom"]
+               "recvfrom", "raw-wks"]
 
 POST_CALLS = ["connect-name", "connect-addr", "accept", "sendto",
               "sendto-nowait", "recvfrom", "resolve", "sendto-old",
